@@ -4,6 +4,7 @@ package hx
 
 import (
 	"bufio"
+	"bytes"
 	"encoding/json"
 	"fmt"
 	"math/rand"
@@ -71,10 +72,42 @@ func NewWriter(path string) (*Writer, error) {
 	return &Writer{f: f, w: bufio.NewWriterSize(f, 1<<20)}, nil
 }
 
+// denull replaces JSON nulls (nil slices / maps) by empty arrays: TLC's Json
+// module has no null.
+func denull(v any) any {
+	switch x := v.(type) {
+	case nil:
+		return []any{}
+	case map[string]any:
+		for k, e := range x {
+			x[k] = denull(e)
+		}
+		return x
+	case []any:
+		for i, e := range x {
+			x[i] = denull(e)
+		}
+		return x
+	}
+	return v
+}
+
 func (w *Writer) Write(v any) {
 	b, err := json.Marshal(v)
 	if err != nil {
 		panic(err)
+	}
+	if bytes.Contains(b, []byte("null")) {
+		var g any
+		dec := json.NewDecoder(bytes.NewReader(b))
+		dec.UseNumber()
+		if err := dec.Decode(&g); err != nil {
+			panic(err)
+		}
+		b, err = json.Marshal(denull(g))
+		if err != nil {
+			panic(err)
+		}
 	}
 	w.w.Write(b)
 	w.w.WriteByte('\n')
